@@ -323,6 +323,10 @@ def attach_resolution_context(
 
     if scopes:
         _store_context(expr, ResolutionContext(scopes=scopes))
+    elif owner is not None:
+        # Nothing encloses the expression here: a chain it kept from another
+        # place (it was moved between documents) must not answer for it.
+        clear_resolution_context(expr)
     return expr
 
 
